@@ -125,6 +125,31 @@ def eval_models(ss):
     return res
 
 
+EVAL_CASES = ['ieee14/ieee14_esst1a.xlsx', 'kundur/kundur_full.xlsx', 'ieee14/ieee14_wt3.xlsx', 'ieee39/ieee39_full.xlsx',
+              'kundur/kundur_vsc.xlsx', 'ieee14/ieee14_pvd1.xlsx', 'wecc/wecc_full.xlsx', 'npcc/npcc.xlsx', 'kundur/kundur_wtdta1.xlsx',
+              'ieee14/ieee14_esd1.xlsx', 'ieee14/ieee14_dgprct1.xlsx', 'kundur/kundur_motor.xlsx', 'kundur/kundur_st2cut.xlsx',
+              'ieee14/ieee14_hygov4.xlsx', 'ieee14/ieee14_ac8b.xlsx', 'ieee14/ieee14_esst4b.xlsx', 'ieee14/ieee14_exac1.xlsx',
+              'ieee14/ieee14_gast.xlsx', 'ieee14/ieee14_ieeet3.xlsx', 'ieee14/ieee14_plbvfu1.xlsx', 'ieee14/ieee14_pll1.xlsx',
+              'ieee14/ieee14_regcp1.xlsx', 'ieee14/ieee14_solar.xlsx', 'ieee14/ieee14_wt3n.xlsx', 'kundur/kundur_esdc2a.xlsx',
+              'kundur/kundur_esst3a.xlsx', 'kundur/kundur_exst1.xlsx', 'kundur/kundur_ieeeg1.xlsx', 'kundur/kundur_ieeest.xlsx',
+              'kundur/kundur_pmu.xlsx', 'kundur/kundur_reg.xlsx', 'kundur/kundur_sexs.xlsx', 'kundur/kundur_wtds.xlsx',
+              'kundur/kundur_freq.xlsx', 'ieee14/ieee14_zip.json', 'ieee14/ieee14_fload.json', 'ieee14/ieee14_ieesgo.xlsx',
+              'ieee14/ieee14_ieeevc2.xlsx', 'ieee14/ieee14_hygovdb.xlsx', 'ieee14/ieee14_esac1a.xlsx', 'ieee14/ieee14_esdc1a.xlsx',
+              'ieee14/ieee14_exac4.xlsx', 'ieee14/ieee14_ieeet1.xlsx', 'ieee14/ieee14_shuntsw.xlsx', '5bus/pjm5bus.xlsx']
+
+
+def eval_case(case):
+    """Every model in use of a stock case: loaded code against the declared strings (dst.symcheck)."""
+    sys.path.insert(0, os.path.dirname(os.path.dirname(os.path.abspath(__file__))))
+    from dst import symcheck
+    path = os.path.join(os.path.dirname(andes.__file__), 'cases', case)
+    cs = andes.load(path, default_config=True, no_output=True)
+    cs.PFlow.run()
+    cs.TDS.config.no_tqdm = 1
+    cs.TDS.init()
+    return symcheck.check_system(cs, rng)
+
+
 def make_system():
     ss = andes.System(default_config=True, no_output=True)
     for k in range(3):
@@ -171,6 +196,17 @@ for op in spec['ops']:
             ss = make_system()
         elif op == 'eval':
             step['eval'] = eval_models(ss if ss is not None else make_system())
+            cases = spec.get('cases')
+            if cases is None:
+                cases = [EVAL_CASES[rng.randrange(len(EVAL_CASES))]]
+            elif cases == 'all':
+                cases = list(EVAL_CASES)
+            elif isinstance(cases, int):
+                cases = rng.sample(EVAL_CASES, cases)
+            step['cases'] = cases
+            for c in cases:
+                for m, r in eval_case(c).items():
+                    step['eval']['%s@%s' % (m, c)] = r
         elif op == 'prepare_full':
             andes.main.prepare(quick=True)
         elif op == 'prepare_incremental':
